@@ -119,6 +119,7 @@ impl SchedulerContext {
         if previous > index {
             self.validation_resets.fetch_add(1, Ordering::Relaxed);
         }
+        vpoint!(REWIND_DONE);
     }
 
     #[inline]
